@@ -70,3 +70,37 @@ theorem read_unknown_lt {bs rest : Bytes} (h : read bs = .unknown rest) : rest.l
         · split at h <;> cases h
 
 end Frame
+
+namespace Frame
+
+/-- a delivered frame consumed at least its two header bytes -/
+theorem read_frame_lt {bs rest : Bytes} {f : Frame} (h : read bs = .frame f rest) : rest.length < bs.length := by
+  unfold read at h
+  split at h
+  · cases h
+  · rename_i kindId r1 hd
+    obtain ⟨_, _, _, _, h1⟩ := dec_some_split hd
+    split at h
+    · split at h
+      · cases h
+      · unfold skipPayload at h; split at h <;> cases h
+    · split at h
+      · cases h
+      · rename_i sid r2 hd2
+        obtain ⟨_, _, _, _, h2⟩ := dec_some_split hd2
+        split at h
+        · cases h
+        · cases h; omega
+    · split at h
+      · cases h
+      · rename_i len r2 hd2
+        obtain ⟨_, _, _, _, h2⟩ := dec_some_split hd2
+        split at h
+        · split at h
+          · unfold skipPayload at h; split at h <;> cases h
+          · cases h
+        · split at h
+          · cases h
+          · cases h; simp only [List.length_drop]; omega
+
+end Frame
